@@ -1,5 +1,6 @@
 import SqlcModel.Driver.Json
 import SqlcModel.Driver.Generate
+import SqlcModel.Config.Validate
 namespace Sqlc.Drv
 open Lean
 
@@ -44,6 +45,20 @@ def c12 (kind : String) (inp impl : Json) : Verdict :=
         else if !jbool impl "diag" then "fail:failure without a diagnostic"
         else "ok"
     { model := m, compare := !anyPanic, frag := if anyPanic then "out:panic (C18)" else "in", specImpl := spec }
+  | "cfgval" =>
+    -- config.ParseConfig on a version-2 configuration next to the model of v2ParseConfig: same verdict, same error
+    let readEntry (e : Json) : Cfg.V2.Entry :=
+      let g := jobj e "go"; let k := jobj e "kotlin"; let p := jobj e "python"
+      ⟨jstr e "engine",
+       if jhas e "go" then some ⟨jstr g "out", jstr g "package", jbool g "overridesOk"⟩ else none,
+       if jhas e "kotlin" then some ⟨jstr k "out", jstr k "package"⟩ else none,
+       if jhas e "python" then some ⟨jbool p "overridesOk"⟩ else none⟩
+    let c : Cfg.V2.Conf := ⟨jstr inp "version", jbool inp "hasGlobalGo", jbool inp "globalUntagged", jbool inp "globalOverridesOk", (jarr inp "entries").map readEntry⟩
+    let m := match Cfg.V2.parse c with | none => "ok" | some e => e.name
+    -- the property on the implementation alone: a faulty target anywhere must reject the configuration
+    let anyFault := c.entries.any (fun e => !Cfg.V2.entryOk e)
+    let spec := if anyFault && jstr impl "verdict" == "ok" then "fail:a gen target of an entry is at fault but the configuration was accepted" else "ok"
+    { model := Json.mkObj [("verdict", m)], specImpl := spec }
   | _ => { compare := false, frag := "e2e" }
 
 end Sqlc.Drv
